@@ -458,7 +458,7 @@ def c05_large(variants=24):
 
 
 def c05_all(tier="quick"):
-    reps = 1 if tier == "quick" else 12
+    reps = 1 if tier == "quick" else 8
     return c05_define(reps) + c05_alias(reps) + c05_derived() + c05_large(24 if tier == "quick" else 96)
 
 
